@@ -243,6 +243,11 @@ def _make_jobs(rng, n, navinfo):
     for sh in P.SHAPES:
         for incl in ("true", "false"):
             jobs.append(P.gen_spec(rng, force_shape=sh, force_options={"incl_src": incl}))
+    # graphs drawn as HTML tables: hub-shaped projects with a small graph_maxnodes (and hidden neighbours)
+    for sh in [s for s in P.SHAPES if s[0].startswith("hub")]:
+        for maxnodes, maxdepth in (("4", "10000"), ("2", "1"), ("4", "2")):
+            jobs.append(P.gen_spec(rng, force_shape=sh, force_options={"graph_maxnodes": maxnodes,
+                                                                       "graph_maxdepth": maxdepth, "graph": "true"}))
     while len(jobs) < n:
         jobs.append(P.gen_spec(rng))
     return [{"spec": sp, "rseed": rng.randrange(1 << 30), "nav": navinfo} for sp in jobs[:max(n, len(P.SHAPES) * 2)]]
@@ -272,14 +277,15 @@ def end_to_end(chk, rng, n, x):
             chk.obligation("end-to-end-runs", False, f"{type(e).__name__}: {e}")
             return
     nav_cases, nav_meta = [], []
-    tot = {"pages": 0, "links": 0, "internal": 0, "fragments": 0, "svg": 0, "search_urls": 0, "external": 0}
+    tot = {"pages": 0, "links": 0, "internal": 0, "fragments": 0, "svg": 0, "graph_table": 0, "search_urls": 0,
+           "external": 0}
     known_hits, shapes, optcombos, errors = {}, set(), set(), 0
     for job, res in zip(jobs, results):
         spec = job["spec"]
         o = spec["options"]
         shapes.add(spec["name"])
         combo = (o["incl_src"], o["search"], o["graph"], o["proc_internals"], tuple(o["display"]), o["sort"],
-                 bool(spec["pages"]))
+                 bool(spec["pages"]), o.get("graph_maxnodes"), o.get("graph_maxdepth"))
         optcombos.add(combo)
         chk.count(("e2e", spec["name"], combo, job["rseed"]), nontrivial=True,
                   sample={"shape": spec["name"], "options": o, "pages": spec["pages"],
